@@ -1,6 +1,6 @@
 SPECIFICATION Spec
 CONSTANT Part = "pairs"
-CONSTANT NRes = 4
+CONSTANT NRes = 3
 CONSTANT MaxLabels = 3
 CONSTANT MaxCount = 3
 CONSTANT MaxO2 = 1
